@@ -79,6 +79,9 @@ type ScriptCfg struct {
 	UserTok   string          `json:"userTok"` // "" | enc | signenc
 	Template  string          `json:"template"`
 	NoUser    bool            `json:"noUser"`
+	// NoHooks starts the gateway without the hook channel (hooks are then no-ops
+	// and add no synchronisation of their own: used for race-detector soaks)
+	NoHooks bool `json:"noHooks,omitempty"`
 	// Auths, when set, enables several mechanisms at once (Auth is then ignored)
 	Auths []string `json:"auths,omitempty"`
 	// KeyOverride replaces configured keys: paasign | sess | sessenc | userenc -> value ("-" = leave the key out)
@@ -436,7 +439,7 @@ func (r *Runner) NewInst(cfg ScriptCfg) (*Inst, error) {
 			return nil, fmt.Errorf("unknown auth %q", a)
 		}
 	}
-	p, err := gw.Start(c, gw.StartOpts{Binary: r.BinGW, WorkDir: r.Work})
+	p, err := gw.Start(c, gw.StartOpts{Binary: r.BinGW, WorkDir: r.Work, NoHooks: cfg.NoHooks})
 	if err != nil {
 		return nil, err
 	}
